@@ -68,7 +68,8 @@ PROPS = {
                        "the KEY half (key set, entry clocks = surviving witnesses, contexts, pending-remove table) is PROVED for every nested value type (proofs/MapKeys.v: Map's key layer simulates an Orswot) and monitored by the extracted decider mkeyspec_ok, which no known finding can mask",
                        "histories of API-generated ops (update with a context from a read for the replica's own actor; rm with the context of get/read_ctx/len/is_empty), per-actor delivery order, duplicates, merges"],
              undischarged=["C05_map_value_claim: 'value of a present key = the surviving nested updates' outside T1/T2/T3 (monitored only; refuted inside)"]),
-    "C06": P(["mvreg"], ["mvreg.apply", "mvreg.merge", "mvreg.read", "mvreg.read_ctx", "mvreg.write", "mvreg.reset", "mvreg.eq", "ctx.*"], exact=["mvreg.read"],
+    "C06": P(["mvreg", "mapmv"], ["mvreg.apply", "mvreg.merge", "mvreg.read", "mvreg.read_ctx", "mvreg.write", "mvreg.reset", "mvreg.eq", "ctx.*",
+                               "mapmv.apply", "mapmv.update", "mapmv.update.closure", "mapmv.get", "mapmv.values", "mapmv.iter"], exact=["mvreg.read"],
              extra_as=["writes are generated through the API with the context of a read; no delivery-order assumption"]),
     "C10": P(["vclock"], ["vclock.*", "dot.*"], quick=1000, all_inputs=True, exact=["vclock.*", "dot.*"],
              extra_as=["clocks are well-formed (no stored zero): proved to be preserved by every API call; a stored zero is only constructible through the public field"]),
